@@ -191,6 +191,7 @@ fn case() -> impl Strategy<Value = Case> {
 
 fn run(ctx: &Ctx) -> Report {
     let mut rep = Report::new(RULE);
+    rep.assume(&prog::budget_note());
     rep.assume("baseline = a fresh ArchiveReader per file (the property's own reference), not the model");
     explore(&mut rep, ctx, "histories", if SCALED { ctx.n(10_000, 300_000) } else { ctx.n(400, 6_000) }, case, oracle);
     rep
